@@ -182,10 +182,16 @@ def oracle_c13(res, i):
         return None if out == 'alive' else 'MISMATCH background worker is dead'
     if c in ('settle', 'close', 'open'):
         return None if out == 'ok' else f'MISMATCH {c}: {out}'
-    if c == 'res' and i >= 3 and res['script'][i - 1] == 'clearfaults' and res['script'][i - 2] == 'quiesce' \
-            and res['script'][i - 3] == 'free' and out.startswith('#res'):
-        # one dump request was served to its end (worker idle, no closure in flight): every closed blob that holds
-        # records has its index on disk
+    waited = 0
+    for j in range(i - 1, -1, -1):
+        t = res['script'][j].split()
+        if t[0] == 'wait':
+            waited += int(t[1])
+        elif t[0] in ('w', 'd', 'free', 'close_active', 'force', 'restart', 'open', 'cfg'):
+            break
+    if c == 'res' and out.startswith('#res') and '@alldumped' in cmd and waited >= 700:
+        # the script has given the requested / deferred dump ample time (an explicit wait well beyond the stall and the
+        # deferral interval): every closed blob that holds records has its index on disk
         st = None
         for j in range(i - 1, -1, -1):
             if res['impl'][j].startswith('#states'):
